@@ -223,6 +223,7 @@ func (m *HeapMon) Check() {
 		}
 	}
 	m.checkPerm("iteration", walk, p)
+	ruin(vs)
 	c.Count("heap:values+iteration", 1)
 	h := core.HashString(m.Cmp.Name)
 	for _, v := range vs {
